@@ -418,7 +418,12 @@ func famAuthority(g *sgen, i int) J {
 	case 1: // Accept of a Follow
 		a = J{"type": "Accept", "id": remote(fmt.Sprintf("/activities/%d", g.r.intn(100)))}
 		store := jmap(w["store"])
-		switch g.r.intn(7) {
+		// mostly the genuine stored Follow (so that verified Accepts — and faults after the verification — are common)
+		sc := g.r.intn(12)
+		if sc >= 6 {
+			sc = 6
+		}
+		switch sc {
 		case 0:
 			delete(store, local("/activities/f1"))
 			if g.r.bool() {
@@ -488,7 +493,11 @@ func famAuthority(g *sgen, i int) J {
 				{remote("/users/bob?v=1"), remote("/users/bob"), remote("/users/bob#main")},
 			}[g.r.intn(3)]
 		}
-		for k, n := 0, 1+g.r.intn(3); k < n; k++ {
+		na := 1 + g.r.intn(3)
+		if g.r.bool() {
+			na = 1
+		}
+		for k := 0; k < na; k++ {
 			actors = append(actors, g.ref(pool[k], "Person", g.r.chance(40)))
 		}
 		a["actor"] = asList(actors)
